@@ -372,6 +372,8 @@ struct Job<'a> {
     base: &'a [u8],
     f: FieldLoc,
     val: u64,
+    /// second field of a pair mutant (adjacent array elements)
+    f2: Option<(FieldLoc, u64)>,
     all_groups: bool,
 }
 
@@ -382,6 +384,7 @@ pub fn run(cfg: &Config, ex: &mut Explorer, corpus: &[(String, Vec<u8>)], synth:
     let caps: [usize; 3] = if thorough { [400, 160, 60] } else { [14, 3, 2] };
     let mut jobs: Vec<Job> = vec![];
     let (mut located, mut lost, mut resyncs, mut by_class) = (0usize, 0usize, 0usize, [0usize; 3]);
+    let mut n_pairs = 0usize;
     for (name, bytes) in corpus.iter().chain(synth.iter()) {
         let (fields, l, r) = match catch(|| locate(bytes)) {
             Ok(x) => x,
@@ -418,8 +421,52 @@ pub fn run(cfg: &Config, ex: &mut Explorer, corpus: &[(String, Vec<u8>)], synth:
                 }
                 for f in chosen {
                     for v in extremes(f.width) {
-                        jobs.push(Job { font: name, base: bytes, f: f.clone(), val: v, all_groups: thorough });
+                        jobs.push(Job { font: name, base: bytes, f: f.clone(), val: v, f2: None, all_groups: thorough });
                     }
+                }
+            }
+            // pairs of adjacent array elements (offset / index arrays): both near the top of their range,
+            // ascending and descending, and straddling the sign bit
+            let mut pairs: Vec<(&FieldLoc, &FieldLoc)> = fields
+                .windows(2)
+                .filter(|w| w[0].table == tag && w[1].table == tag && w[0].width == w[1].width && w[1].pos == w[0].pos + w[0].width && w[0].path.ends_with(']') && w[1].path.ends_with(']') && w[0].width >= 2)
+                .map(|w| (&w[0], &w[1]))
+                .collect();
+            n_pairs += pairs.len();
+            let cap = if thorough { 120 } else { 4 };
+            let mut chosen = vec![];
+            while chosen.len() < cap && !pairs.is_empty() {
+                let i = rng.below(pairs.len() as u64) as usize;
+                chosen.push(pairs.swap_remove(i));
+            }
+            for (a, b) in chosen {
+                let bits = 8 * a.width as u32;
+                let max = if bits == 64 { u64::MAX } else { (1u64 << bits) - 1 };
+                for (va, vb) in [(max - 0x10, max), (max, max - 0x10), (max >> 1, (max >> 1) + 1), (1, 0)] {
+                    jobs.push(Job { font: name, base: bytes, f: a.clone(), val: va, f2: Some((b.clone(), vb)), all_groups: thorough });
+                }
+            }
+            // pairs of adjacent header fields, at least one count-like: (start, count), (first, last),
+            // (count, size) ... jointly at the ends of their ranges
+            let mut pairs: Vec<(&FieldLoc, &FieldLoc)> = fields
+                .windows(2)
+                .filter(|w| w[0].table == tag && w[1].table == tag && w[1].pos == w[0].pos + w[0].width && !(w[0].path.ends_with(']') && w[1].path.ends_with(']')) && (w[0].class == 0 || w[1].class == 0) && w[0].width <= 4 && w[1].width <= 4)
+                .map(|w| (&w[0], &w[1]))
+                .collect();
+            n_pairs += pairs.len();
+            let cap = if thorough { 150 } else { 6 };
+            let mut chosen = vec![];
+            let head = (cap / 2).min(pairs.len());
+            chosen.extend(pairs.drain(..head));
+            while chosen.len() < cap && !pairs.is_empty() {
+                let i = rng.below(pairs.len() as u64) as usize;
+                chosen.push(pairs.swap_remove(i));
+            }
+            for (a, b) in chosen {
+                let ma = (1u64 << (8 * a.width as u32)) - 1;
+                let mb = (1u64 << (8 * b.width as u32)) - 1;
+                for (va, vb) in [(0, 0), (ma, mb), (ma, 1), (1, mb), (0, mb), (ma, 0)] {
+                    jobs.push(Job { font: name, base: bytes, f: a.clone(), val: va, f2: Some((b.clone(), vb)), all_groups: thorough });
                 }
             }
         }
@@ -438,19 +485,32 @@ pub fn run(cfg: &Config, ex: &mut Explorer, corpus: &[(String, Vec<u8>)], synth:
             b[f.pos + k] = nb;
             v >>= 8;
         }
+        let mut second = String::new();
+        if let Some((f2, v2)) = &job.f2 {
+            let mut v = *v2;
+            for k in (0..f2.width).rev() {
+                let nb = (v & 0xFF) as u8;
+                if b[f2.pos + k] != nb {
+                    unchanged = false;
+                }
+                b[f2.pos + k] = nb;
+                v >>= 8;
+            }
+            second = format!(" field[{}@{}:u{}={:#x}]", f2.path, f2.pos, 8 * f2.width, v2);
+        }
         if unchanged {
             ex.count("fields: mutant equals base (skipped)");
             return;
         }
         ex.count(&format!("fields-mutants:{}", f.table));
-        let label = || format!("font={} mut=field[{}@{}:u{}={:#x}]", job.font, f.path, f.pos, 8 * f.width, job.val);
+        let label = || format!("font={} mut=field[{}@{}:u{}={:#x}]{second}", job.font, f.path, f.pos, 8 * f.width, job.val);
         let g = if job.all_groups { Groups::ALL } else { Groups::for_table(f.table) };
         // thorough tier: count-like fields run the full size / location grid
-        exercise_groups(ex, &label, &b, !(job.all_groups && f.class == 0), g);
+        exercise_groups(ex, &label, &b, !(job.all_groups && f.class == 0 && job.f2.is_none()), g);
     });
     ex.absorb(done);
     format!(
-        "field extremes: {located} verified numeric fields located by traversal in {} base fonts (count-like {}, other scalars {}, offsets {}; {lost} tables abandoned after a layout mismatch, {resyncs} resynchronisations), {n_jobs} single-field mutants",
+        "field extremes: {located} verified numeric fields located by traversal in {} base fonts (count-like {}, other scalars {}, offsets {}; {lost} tables abandoned after a layout mismatch, {resyncs} resynchronisations), {n_jobs} single-field / adjacent-pair mutants ({n_pairs} adjacent element / header-field pairs available)",
         corpus.len() + synth.len(),
         by_class[0],
         by_class[1],
